@@ -14,6 +14,7 @@ import D2P.Model.Save
 import D2P.Props.C02BodyStray
 import D2P.Props.C02Notes
 import D2P.Props.C02Deep
+import D2P.Props.C02DeepCells
 /-!
 # JSON line protocol between the Python harness and the model
 -/
@@ -355,6 +356,8 @@ def handleValid (j : Json) : Except String Json := do
           match rootElement o a files r with | .ok cr => toJson (notesPartOK cr.2) | .error _ => Json.null))),
        ("<deepok>", Json.mkObj (cs.map fun r => (String.ofList r.path,
           match rootElement o a files r with | .ok cr => toJson (deepPartOK cr.2) | .error _ => Json.null))),
+       ("<deepcok>", Json.mkObj (cs.map fun r => (String.ofList r.path,
+          match rootElement o a files r with | .ok cr => toJson (deepCPartOK cr.2) | .error _ => Json.null))),
        ("<groups>", toJson ((cs.map fun r => match rootElement o a files r with
           | .ok cr => ((itemsOf (bodyKids cr.2)).filter fun i => match i with | .grp _ => true | _ => false).length | .error _ => 0).foldl (· + ·) 0)),
        ("<sources>", toJson (cs.all fun r => match a.readXml r.path with | .ok root => validT root && goodTree root && sameWb root | .error _ => true))]))
